@@ -54,6 +54,23 @@ let handle toks =
       (inproc_loop (bool_of_string_ fx) (ord_of_string ordt) (z_of_string l) (z_of_string r) (bool_of_string_ rv)
          (nat_of_string s) (list_of_string conf_of_string fine) O
          (empty_path (nat_of_string ml) Z0) O)
+  | ["calcorder"; rv; xyz; vel; box; fpos; fvel; fbox; sysbox; ordt] ->
+    (* EngineBase.calculate_order with optional overrides ("N" = None) against the file the
+       System points to (fbox "N" = no box entry in the file) *)
+    let o s = if s = "N" then None else Some (z_of_string s) in
+    string_of_z
+      (calculate_order_args (ord_of_string ordt) (bool_of_string_ rv) (o xyz) (o vel) (o box)
+         { fc_pos = z_of_string fpos; fc_vel = z_of_string fvel; fc_box = o fbox } (z_of_string sysbox))
+  | ["inprocargs"; fx; rv; l; r; ml; s; boxmode; fpos; fvel; fbox; sysbox; fine; ordt] ->
+    (* the in-process loop with its call site spelled out; boxmode 1 = the override is the
+       state's own box (as in /repo), 0 = the box entry of the initial file (may be absent) *)
+    let o s = if s = "N" then None else Some (z_of_string s) in
+    let init = { fc_pos = z_of_string fpos; fc_vel = z_of_string fvel; fc_box = o fbox } in
+    string_of_result
+      (inproc_loop_args (bool_of_string_ fx) (ord_of_string ordt) (z_of_string l) (z_of_string r) (bool_of_string_ rv)
+         (nat_of_string s) (if bool_of_string_ boxmode then (fun c -> Some c.cbox) else (fun _ -> init.fc_box))
+         init (z_of_string sysbox) (list_of_string conf_of_string fine) O
+         (empty_path (nat_of_string ml) Z0) O)
   | ["spec"; fx; rv; l; r; ml; traj; ordt] ->
     (* the specification: stop rule over the own-data frames of the trajectory *)
     (match propagate_loop_x (bool_of_string_ fx) (empty_path (nat_of_string ml) Z0)
